@@ -82,11 +82,13 @@ func (s *grpcServer) Initialize(
 			s.logUnary,
 			grpc_prometheus.UnaryServerInterceptor,
 			UnaryFaultInjector(s.faults),
+			recoverUnary,
 		),
 		grpc.ChainStreamInterceptor(
 			s.logStream,
 			grpc_prometheus.StreamServerInterceptor,
 			StreamFaultInjector(s.faults),
+			recoverStream,
 		),
 		grpc.KeepaliveEnforcementPolicy(keepalive.EnforcementPolicy{
 			// be tolerant of aggressive client keepalives
@@ -116,6 +118,39 @@ func (s *grpcServer) Initialize(
 	reflection.Register(s.server)
 
 	return nil
+}
+
+// recoverUnary turns a panic in a handler (e.g. an action constructor rejecting
+// an out of range request value) into an Internal status. grpc-go does not
+// recover handler panics by itself, so without this any such request takes the
+// whole server process down.
+func recoverUnary(
+	ctx context.Context,
+	req interface{},
+	info *grpc.UnaryServerInfo,
+	handler grpc.UnaryHandler,
+) (resp interface{}, err error) {
+	defer func() {
+		if r := recover(); r != nil {
+			resp, err = nil, status.Errorf(codes.Internal, "panic handling %s: %v", info.FullMethod, r)
+		}
+	}()
+	return handler(ctx, req)
+}
+
+// recoverStream is recoverUnary for streaming calls
+func recoverStream(
+	srv interface{},
+	ss grpc.ServerStream,
+	info *grpc.StreamServerInfo,
+	handler grpc.StreamHandler,
+) (err error) {
+	defer func() {
+		if r := recover(); r != nil {
+			err = status.Errorf(codes.Internal, "panic handling %s: %v", info.FullMethod, r)
+		}
+	}()
+	return handler(srv, ss)
 }
 
 func (s *grpcServer) logUnary(
